@@ -265,8 +265,12 @@ def known_finding(case, viol):
     prog = viol.get("program", "")
     what = viol.get("what", "")
     err = viol.get("error", "") or ""
-    if "_a @" in prog:
-        # a scipy sparse *array* (sparray) coefficient makes the Jacobian a sparray
+    if "_a @" in prog and what == "evaluation raised" and any(
+        t in err for t in ("getformat", "one dimensional", "dimension mismatch", "inconsistent shapes")
+    ):
+        # a scipy sparse *array* (sparray) coefficient makes the Jacobian a sparray, which the
+        # matrix utilities do not support: only the known exceptions are downgraded; a wrong
+        # value or any other exception on such a program stays a violation.
         return "C01-sparray-jacobian"
     if "safe_power" in prog and what == "Jacobian differs from true derivative":
         return "C01-safe-power-jacobian"
